@@ -373,6 +373,9 @@ func (x *XRefParser) parseXRefStream() (*XRefTable, error) {
 			}
 			index[i] = int(intVal)
 		}
+		if len(index)%2 != 0 {
+			return nil, fmt.Errorf("invalid /Index: %d entries, expected pairs", len(index))
+		}
 	}
 
 	// Parse /W array - field widths [type field1 field2]
@@ -400,6 +403,12 @@ func (x *XRefParser) parseXRefStream() (*XRefTable, error) {
 		if w[i] < 0 || w[i] > 8 {
 			return nil, fmt.Errorf("invalid /W entry: %d", w[i])
 		}
+	}
+
+	// An entry that takes no bytes cannot be read from the data: the counts in
+	// /Index would then run unchecked
+	if w[0]+w[1]+w[2] == 0 {
+		return nil, fmt.Errorf("invalid /W: entries have no width")
 	}
 
 	// Parse entries from binary data
